@@ -103,6 +103,10 @@ impl WireState {
         if self.ops > RUNAWAY_OPS {
             self.runaway = true;
         }
+        // a caller that ignores the errors it now gets would spin forever: unwind out of it
+        if self.ops > 2 * RUNAWAY_OPS {
+            panic!("verif: runaway (the query keeps using the transport although every operation fails)");
+        }
         self.runaway
     }
 }
